@@ -774,9 +774,14 @@ fn configure_build(
             // an empty list is no list: same object name and same statement as without
             .filter(|build_deps| !build_deps.is_empty());
 
-        let build_deps_hash = combined_build_deps
-            .as_ref()
-            .map_or(0, utils::calculate_hash);
+        // the build statements list these sorted (`NinjaBuildBuilder::deps()`): hash them in that
+        // order, so the same order-only dependencies give the same object name whatever order
+        // the modules exporting them were resolved in.
+        let build_deps_hash = combined_build_deps.as_ref().map_or(0, |build_deps| {
+            let mut build_deps = build_deps.clone();
+            build_deps.sort();
+            utils::calculate_hash(&build_deps)
+        });
 
         if let Some(build) = &module.build {
             // module has custom build rule
